@@ -113,3 +113,13 @@ def sami_doc(syncs, langs, use_lang_attr=False, extra_css="", quote='"', class_c
 
 def frac_us(x):
     return Fraction(x)
+
+
+# documents every reader refuses half-way (a valid first cue, then a malformed one): earlier reads of a reused reader object
+REJECTED = {
+    "dfxp": '<?xml version="1.0" encoding="utf-8"?><tt xml:lang="en" xmlns="http://www.w3.org/ns/ttml"><body><div><p begin="00:00:01.000" end="00:00:02.000">left over</p><p begin="nonsense" end="00:00:03.000">bad</p></div></body></tt>',
+    "sami": "<SAMI><BODY><SYNC start=1000><P class=ENCC>left over</P></SYNC><SYNC><P class=ENCC>no start</P></SYNC></BODY></SAMI>",
+    "webvtt": "WEBVTT\n\n00:01.000 --> 00:02.000\nleft over\n\n00:05.000 --> bad\nmalformed timing\n",
+    "srt": "1\n00:00:01,000 --> 00:00:02,000\nleft over\n\n2\n00:00:0x,000 --> 00:00:04,000\nbad\n",
+    "microdvd": "{25}{50}left over\n{x}{60}bad\n",
+}
